@@ -213,6 +213,19 @@ def run(chk):
           fns.append(f)
           calls.append({'fn': len(fns) - 1, 'kind': kind, 'k': 1, 'must_raise': True})
           break
+      if kind in ('fori', 'while') and rng.random() < 0.3:
+        # a body that changes which object sits where in the carry (ping-pong buffers) or re-binds / adds / removes an attribute:
+        # nnx may refuse it, but may never accept it and differ from the unrolled loop
+        rot = 0
+        if len(set(args)) > 1 and rng.random() < 0.5:
+          f, _ = gen_fn(rng, d, args, False, rng.randint(1, 3), False)
+          rot = rng.randint(1, len(args) - 1)
+        else:
+          f = gen_struct_edit(rng, d, args)
+        if f is not None:
+          fns.append(f)
+          calls.append({'fn': len(fns) - 1, 'kind': kind, 'k': rng.randint(1, 3), 'rot': rot, 'refuse_ok': True})
+          break
       if fns and rng.random() < 0.5:
         fi = rng.randrange(len(fns))     # the same transformed function again (cache hit or, after structure changes, miss)
       else:
@@ -228,6 +241,9 @@ def run(chk):
         call['other'], _ = gen_fn(rng, d, args, False, rng.randint(0, 2), False)
         call['pred'] = rng.random() < 0.5
         call['index'] = rng.randrange(3)
+      if kind in ('jit', 'remat', 'cond', 'switch') and rng.random() < 0.4:
+        call['wrap'] = rng.choice(['dict', 'list', 'nested'])     # the operands inside one container operand
+        call['nkw'] = 0
       calls.append(call)
     cases.append({'desc': desc, 'args': args, 'fns': fns, 'calls': calls})
   W = 14
@@ -252,6 +268,7 @@ def run(chk):
     hist = []
     for call, res in zip(c['calls'], o['ok']):
       stat['calls'] += 1
+      stat['wrapped'] = stat.get('wrapped', 0) + bool(call.get('wrap'))
       stat['by_kind'][call['kind']] = stat['by_kind'].get(call['kind'], 0) + 1
       impl, eager = res['impl'], res['eager']
       if call.get('must_raise'):
@@ -260,6 +277,14 @@ def run(chk):
           chk.violation('oracle', 'nnx.cached_partial accepted a function that changes the structure of a bound graph (or re-binds an attribute to another Variable)',
                         {'case': c, 'call': call, 'fn': c['fns'][call['fn']], 'impl': impl})
         hist.append((call, None))
+        break
+      if call.get('refuse_ok'):
+        stat['loop_struct'] = stat.get('loop_struct', 0) + 1
+        stat['loop_struct_refused'] = stat.get('loop_struct_refused', 0) + ('err' in impl)
+        if 'err' not in impl and impl != eager:
+          chk.violation('oracle', 'nnx.%s_loop accepted a body that %s and gave a result different from the unrolled Python loop (values, or which of the caller\'s objects sit where in the returned carry)'
+                        % (call['kind'], 'hands the carry back in another arrangement' if call['rot'] else 'changes the structure of the carry'),
+                        {'case': c, 'call': call, 'fn': c['fns'][call['fn']], 'impl': impl, 'eager': eager})
         break
       if ('err' in impl) != ('err' in eager):
         # a failing function leaves the caller's objects half-updated when eager and untouched under a transform: only compare that both fail
